@@ -154,6 +154,21 @@ def d3y (b : Boundary) (s : Scheme) (f : Arr3 α) (Ny : Nat) : Option (Arr3 (Lin
 def d3z (b : Boundary) (s : Scheme) (f : Arr3 α) (Nz : Nat) : Option (Arr3 (Lin α)) :=
   (d3x b s (transpose13 f) Nz).map transpose13
 
+/-! ### the grid spacing: `func(f, i, inverse_dx)` multiplies the stencil sum by `1/d` of ITS axis -/
+
+/-- multiply a formal combination by the inverse spacing. -/
+def scaleLin (c : Rat) (row : Lin α) : Lin α := row.map fun ca => (ca.1 * c, ca.2)
+
+def scale3 (c : Rat) (a : Arr3 (Lin α)) : Arr3 (Lin α) := a.map fun p => p.map fun r => r.map (scaleLin c)
+
+/-- `d3x`: `self.d3(f, self.inverse_dx, param['Nx'])`, likewise y and z with their own spacing. -/
+def d3xS (b : Boundary) (s : Scheme) (f : Arr3 α) (Nx : Nat) (dx : Rat) : Option (Arr3 (Lin α)) :=
+  (d3x b s f Nx).map (scale3 (1 / dx))
+def d3yS (b : Boundary) (s : Scheme) (f : Arr3 α) (Ny : Nat) (dy : Rat) : Option (Arr3 (Lin α)) :=
+  (d3y b s f Ny).map (scale3 (1 / dy))
+def d3zS (b : Boundary) (s : Scheme) (f : Arr3 α) (Nz : Nat) (dz : Rat) : Option (Arr3 (Lin α)) :=
+  (d3z b s f Nz).map (scale3 (1 / dz))
+
 /-! ### tensor variants -/
 
 def map1 (g : β → Option γ) (f : List β) : Option (List γ) := f.mapM g
